@@ -53,7 +53,9 @@ class SeqFaultHarness:
     horizon = 3000
 
     def __init__(self, ct, variant, method="GET", warm=False, consume="request", faults=1, retries=0, max_connections=2,
-                 fault_set="all"):
+                 fault_set="all", early=False, body="bytes"):
+        self.early = early          # the server answers as soon as it has the request head (early response)
+        self.body = body            # "bytes" (Content-Length) | "iter" (chunked upload in three chunks)
         self.ct = ct
         self.variant = variant
         self.method = method
@@ -73,6 +75,8 @@ class SeqFaultHarness:
         w.env.faults = self.faults
         try:
             body = b"payload" if self.method == "POST" else None
+            if body is not None and self.body == "iter":
+                body = iter([b"pay", b"lo", b"ad"])
             if self.consume == "request":
                 r = pool.request(self.method, scen.url_for(ct, token="victim"), content=body)
                 log["victim"] = ("ok", r.status, r.content)
@@ -89,6 +93,13 @@ class SeqFaultHarness:
         log["stuck"] = [s for s in (conn_stuck(c) for c in pool.connections) if s]
         log["owned_after"] = owned_transports(pool)
         log["open_after"] = {t.id for t in w.net.open_transports()}
+        # a following request to the SAME origin must get its own answer (the victim's connection is either clean or gone)
+        log["phase"] = "followup"
+        try:
+            r = pool.request("GET", scen.url_for(ct, token="after"), extensions={"timeout": {"pool": 0}})
+            log["followup"] = ("ok", r.status, r.content)
+        except Exception as e:
+            log["followup"] = ("exc", e)
         # behavioural probe: max_connections fresh requests to NEW origins held open at the same time
         held = []
         probe = []
@@ -117,6 +128,11 @@ class SeqFaultHarness:
         w.env.faults = self.faults
         try:
             body = b"payload" if self.method == "POST" else None
+            if body is not None and self.body == "iter":
+                async def agen():
+                    for c_ in (b"pay", b"lo", b"ad"):
+                        yield c_
+                body = agen()
             if self.consume == "request":
                 r = await pool.request(self.method, scen.url_for(ct, token="victim"), content=body)
                 log["victim"] = ("ok", r.status, r.content)
@@ -136,6 +152,12 @@ class SeqFaultHarness:
         log["stuck"] = [s for s in (conn_stuck(c) for c in pool.connections) if s]
         log["owned_after"] = owned_transports(pool)
         log["open_after"] = {t.id for t in w.net.open_transports()}
+        log["phase"] = "followup"
+        try:
+            r = await pool.request("GET", scen.url_for(ct, token="after"), extensions={"timeout": {"pool": 0}})
+            log["followup"] = ("ok", r.status, r.content)
+        except Exception as e:
+            log["followup"] = ("exc", e)
         held = []
         probe = []
         try:
@@ -158,7 +180,7 @@ class SeqFaultHarness:
     # ------------------------------------------------------------------------------------------------
     def run(self, chooser, world_hook=None) -> Execution:
         ct = self.ct
-        topo = scen.Topology(scen.CONN_TYPES[ct])
+        topo = scen.Topology(scen.CONN_TYPES[ct], respond_at="head" if self.early else "complete")
         log: dict = {}
         kinds = None
         if self.fault_set == "one":
@@ -181,6 +203,8 @@ class SeqFaultHarness:
         ex.trace = ledger
         vic = log.get("victim")
         base_sig = {"harness": "seqfault", "ct": self.ct, "method": self.method, "warm": self.warm, "consume": self.consume}
+        if self.early or self.body != "bytes":
+            base_sig.update(early=self.early, body=self.body)
         inj_desc = None
         if inj:
             opi, fname = inj[0]
@@ -196,7 +220,9 @@ class SeqFaultHarness:
                                            dict(base_sig, variant_independent=True, kind=kind, **extra)))
 
         if res[0] != "ok":
-            if res[0] == "hang":
+            if res[0] == "hang" and log.get("phase") == "followup" and "followup" not in log:
+                viol("C01", "followup-hang", f"the request that followed on the same origin never gets an answer (the connection it was given is out of step with the server): {res[1]}")
+            elif res[0] == "hang":
                 viol("C15", "hang", f"caller hangs: {res[1]}")
             elif res[0] == "exc":
                 viol("C05", "program-error", f"post-victim program raised {exc_class(res[1])}: {res[1]}")
@@ -223,6 +249,12 @@ class SeqFaultHarness:
         # ---- C01-style sanity on success
         if vic[0] == "ok" and self.method != "HEAD" and vic[2] != b"<victim>":
             viol("C01", "wrong-body", f"victim got body {vic[2]!r}")
+        fu = log.get("followup")
+        if fu is not None:
+            if fu[0] == "ok" and (fu[1] != 200 or fu[2] != b"<after>"):
+                viol("C01", "followup-garbled", f"the request that followed on the same origin received status={fu[1]} body={fu[2]!r} instead of its own answer")
+            elif fu[0] == "exc":
+                viol("C01", "followup-failed", f"the request that followed on the same origin failed with {exc_class(fu[1])}: {fu[1]}", exc=exc_class(fu[1]))
         # ---- C05
         after = log["after"]
         if after["requests"] != 0 or "Requests: 0 active, 0 queued" not in after["repr"]:
